@@ -67,8 +67,8 @@ SerMatch(sp, ob) ==
   CASE sp.k = "bag"  -> ob.k = "list" /\ Len(ob.v) = Len(AsSeq(sp))                       \* as multisets
                         /\ \A e \in DOMAIN sp.v : Cardinality({n \in 1..Len(ob.v) : SerMatch(e, ob.v[n])}) = sp.v[e]
     [] sp.k \in {"list", "tuple"} -> ob.k = "list" /\ Len(ob.v) = Len(sp.v) /\ \A n \in 1..Len(sp.v) : SerMatch(sp.v[n], ob.v[n])   \* a tuple is written as a list
-    [] sp.k = "dict" -> ob.k = "dict" /\ {p[1] : p \in Range(ob.v)} = {p[1] : p \in Range(sp.v)}
-                        /\ \A p \in Range(sp.v) : \A q \in Range(ob.v) : p[1] = q[1] => SerMatch(p[2], q[2])
+    [] sp.k = "dict" -> ob.k = "dict" /\ Len(ob.v) = Len(sp.v)                           \* (json writes every key as a string)
+                        /\ \A p \in Range(sp.v) : \E q \in Range(ob.v) : (p[1] = q[1] \/ StrOfInt(p[1]) = q[1]) /\ SerMatch(p[2], q[2])
     [] OTHER -> sp = ob
 
 \* the tree has a set with two or more members: dump writes them in the order in which Python happens to list the set
